@@ -168,12 +168,7 @@ func runC19(p *load.Program, r *core.Report) {
 		// forward to the replacement with the same message
 		key2 := "C19.W3|" + fn + "|forward-to-replacement"
 		okf := false
-		var msgPar *ssa.Parameter
-		for _, pa := range fwd.Params {
-			if pa.Name() == "message" {
-				msgPar = pa
-			}
-		}
+		msgPar := paramOfType(fwd, "gen.MailboxMessage", 0)
 		eachInstr(fwd, func(in ssa.Instruction) {
 			cc := callCommon(in)
 			if cc == nil || !callsNamed(in, "Forward") {
@@ -286,12 +281,7 @@ func runC19(p *load.Program, r *core.Report) {
 	// the dispatcher itself never releases the message it hands over
 	{
 		key := "C19.W2|" + fn + "|dispatcher-does-not-release"
-		var msgPar *ssa.Parameter
-		for _, pa := range fwd.Params {
-			if pa.Name() == "message" {
-				msgPar = pa
-			}
-		}
+		msgPar := paramOfType(fwd, "gen.MailboxMessage", 0)
 		var bad []string
 		eachInstr(fwd, func(in ssa.Instruction) {
 			cc := callCommon(in)
@@ -319,12 +309,7 @@ func runC19(p *load.Program, r *core.Report) {
 		if pf == nil {
 			r.Unk(rule2, key, "", "", inst, "(*process).Forward not found")
 		} else {
-			var msgPar *ssa.Parameter
-			for _, pa := range pf.Params {
-				if pa.Name() == "message" {
-					msgPar = pa
-				}
-			}
+			msgPar := paramOfType(pf, "gen.MailboxMessage", 0)
 			ok := false
 			eachInstr(pf, func(in ssa.Instruction) {
 				cc := callCommon(in)
